@@ -164,7 +164,8 @@ def _loop_removes_cache(ctx, F, sg, starts, rm, cparam):
 
 def r12_3(ctx, rc):
     F = _clean(ctx)
-    sg = ctx.E.super(F, lambda g: False)
+    sg = ctx.helpers_graph(F, stop=(ctx.R.builder + '._try_to_remove_file',
+                                   ctx.R.builder + '._remove_empty_dirs'))
     rm = ctx.R.builder + '._try_to_remove_file'
     cparam = F.params[0]
 
@@ -214,7 +215,8 @@ def r12_3b(ctx, rc):
     """Order inside clean: files, then the cache file, then directories -
     a directory that holds the cache file is empty only afterwards."""
     F = _clean(ctx)
-    sg = ctx.E.super(F, lambda g: False)
+    sg = ctx.helpers_graph(F, stop=(ctx.R.builder + '._try_to_remove_file',
+                                   ctx.R.builder + '._remove_empty_dirs'))
     rm = ctx.R.builder + '._try_to_remove_file'
     dr = ctx.R.builder + '._remove_empty_dirs'
     starts = [x.id for x in sg.nodes if Q.is_call(x, dr)]
